@@ -41,6 +41,15 @@ CHECKS.update({
    text="For the corpus theories with a model declaration, histories create objects, morphisms, dom/cod, member facts and closes in every order (acyclic morphism graphs only); the closed model must satisfy all rules including inheritance along morphisms, be the reference chase, and not depend on whether morphisms arrived before or after facts and closes.", note=EXPL_NOTE),
 })
 
+CHECKS.update({
+ "C16": dict(level="exploration", design="4/C16", engine="models", technique="bounded-exhaustive enumeration of labelled (new/old) databases per rule family; one real rule pass of the generated code vs. a naive join over the emitted flat premise, with multiplicities",
+   text="For every rule family of every corpus theory, every database over two elements per type with at most N rows per premise relation in which each row and element is labelled old or new is built on the real model (insert, private move_new_to_old, insert), one real rule pass is executed into a fresh delta, and the multiset of pushed conclusion rows must equal the multiset of matches of the flat premise that contain something new - each exactly once, all-old matches never. Inputs, not states: exploration.",
+   note="Trusted: the comment above each rule function as the statement of the flat rule (cross-checked against the fields read), the generated glue's extraction of one rule pass from close_until."),
+ "C20": dict(level="exploration", design="4/C20", engine="models", technique="every explored API history re-executed in fresh processes under varied address-space layout, environment, allocator settings and harness threading; byte comparison of transcripts; in-process replay check on every expansion",
+   text="All histories of the explorer (to the reported depth) are executed under four process configurations (ASLR on/off, padded environment, allocator perturbation, 1/3/16 harness threads); ids, return values and the ordered output of every iterator after every call are hashed per history and must be identical across configurations and across in-process replays. Supplemented by a text scan of generated modules and runtime for unordered containers, clocks, threads and pointer casts.",
+   note="The schedule dimension is empty (no threads in generated code or runtime). Trusted: std DefaultHasher with fixed keys for transcripts."),
+})
+
 PENDING = {}
 
 def main():
@@ -76,7 +85,7 @@ def main():
             "add_only": True,
         },
         "engines": [
-            {"name": "models", "path": "/verif/engine/models", "serves_properties": ["C01", "C02", "C03", "C04", "C05", "C06", "C07", "C15", "C17"],
+            {"name": "models", "path": "/verif/engine/models", "serves_properties": ["C01", "C02", "C03", "C04", "C05", "C06", "C07", "C15", "C16", "C17", "C20"],
              "kind_free_text": "Rust harness compiled together with the modules the current eqlog compiler generates for the corpus; level-synchronous BFS over API histories with replay, reference semantics in refsem.rs"},
             {"name": "containers", "path": "/verif/engine/containers", "serves_properties": ["C08", "C14", "C18"],
              "kind_free_text": "Rust harness linked against /repo/eqlog-runtime: explicit-state BFS over the real containers / exhaustive input enumeration"},
